@@ -105,12 +105,17 @@ def tr(node, env):
         out = []
         for a, op, b in zip(terms, node.ops, terms[1:]):
             pa, ta = tr(a, env)
-            pb, tb = tr(b, env)
             if isinstance(op, (ast.Is, ast.IsNot)) and isinstance(b, ast.Constant) and b.value is None:
+                if ta == "num" and "<deps>" in env and isinstance(a, ast.Attribute) and len(node.ops) == 1:
+                    # inside a function site, an attribute that RECORDS types as a (non-optional) number is never None
+                    # in the model (e.g. Graph.generation_time : num), so `x.attr is not None` is `true`
+                    out.append("false" if isinstance(op, ast.Is) else "true")
+                    continue
                 if ta != "opt":
                     raise Untranslatable("is None on a non-optional")
                 out.append(("(is_none %s)" if isinstance(op, ast.Is) else "(negb (is_none %s))") % pa)
                 continue
+            pb, tb = tr(b, env)
             if isinstance(op, (ast.In, ast.NotIn)):
                 if ta == "str" and tb == "strs":
                     s = "(mem %s %s)" % (pa, pb)
@@ -141,6 +146,12 @@ def tr(node, env):
         return ("(" + " && ".join(out) + ")" if len(out) > 1 else out[0]), "bool"
     if isinstance(node, ast.Call):
         fname = ast.unparse(node.func)
+        if fname == "sorted" and fname not in env and len(node.args) == 1 and not node.keywords:
+            # sorted(xs) on a list of attrs objects: the model's order of that record kind (ATTRS_ORDER, trusted)
+            pa, ta = tr(node.args[0], env)
+            if ta.startswith("list:") and ta[5:] in ATTRS_ORDER:
+                return "(sort_stable %s %s)" % (ATTRS_ORDER[ta[5:]], pa), ta
+            raise Untranslatable("call " + ast.unparse(node)[:60])
         if fname == "sorted" and fname not in env:
             # sorted(zip(names, numbers), key=operator.itemgetter(0)): stable sort of the pairs by their first component
             if (len(node.args) == 1 and len(node.keywords) == 1 and node.keywords[0].arg == "key"
@@ -735,7 +746,11 @@ def generate():
 # `for ..: if c: return False` + `return True` (forallb / forall2b), `try: S except E: raise E(..)` (= S),
 # `len`, `xs.count(x)`, `sorted(zip(names, nums), key=operator.itemgetter(0))`, and calls of functions that are
 # themselves function sites (FUN_CALLS / METHOD_CALLS: the callee's model term; the caller's tie then depends on the
-# callee's).  Anything else is "untranslated" (fail-closed).
+# callee's).  Also: a locally defined function called as a statement with explicit, non-raising arguments (inlined by
+# substitution, inline_call), `sorted(xs)` on lists of Deme / AsymmetricMigration (ATTRS_ORDER, a trusted fact), handlers that
+# re-raise the same class on every path, and the "update of a deep copy" form (`g = copy.deepcopy(x)`, `g.attr = e`,
+# `for y in g.coll: y.attr /= e ...` = mapM of the rebuilt record, `return g`; see bind_mutable / tr_update_loop).
+# Anything else is "untranslated" (fail-closed).
 RECORDS = {
     "epoch": {"start_time": ("(e_start %s)", N), "end_time": ("(e_end %s)", N), "start_size": ("(e_ssize %s)", N),
               "end_size": ("(e_esize %s)", N), "size_function": ("(e_sf %s)", "str"), "selfing_rate": ("(e_self %s)", N),
@@ -747,6 +762,19 @@ RECORDS = {
     "mig": {"source": ("(m_src %s)", "str"), "dest": ("(m_dst %s)", "str"), "start_time": ("(m_start %s)", N),
             "end_time": ("(m_end %s)", N), "rate": ("(m_rate %s)", N)},
 }
+RECORDS["graph"] = {"time_units": ("(g_units %s)", "str"), "generation_time": ("(g_gt %s)", N), "demes": ("(g_demes %s)", "list:deme"),
+                    "migrations": ("(g_migs %s)", "list:mig"), "pulses": ("(g_pulses %s)", "list:pulse")}
+# constructor and ordered projections of each record (Model/MDM.v), to rebuild a record with some fields updated; a
+# projection without a Python attribute in RECORDS (d_desc, g_desc, g_doi, g_meta, g_index) is carried over unchanged
+CTORS = {"epoch": ("mkEpoch", ["e_start", "e_end", "e_ssize", "e_esize", "e_sf", "e_self", "e_clone"]),
+         "deme": ("mkDeme", ["d_name", "d_desc", "d_start", "d_anc", "d_props", "d_epochs"]),
+         "mig": ("mkMig", ["m_src", "m_dst", "m_start", "m_end", "m_rate"]),
+         "pulse": ("mkPulse", ["p_srcs", "p_dst", "p_time", "p_props"]),
+         "graph": ("mkGraph", ["g_desc", "g_units", "g_gt", "g_doi", "g_meta", "g_demes", "g_migs", "g_pulses", "g_index"])}
+# TRUSTED FACT (not derived from the source): the ordering attrs generates for these two classes (order=True: the tuple
+# of the fields in declaration order), as used by builtin sorted() on lists of them, is the model's deme_lt / mig_lt
+# (Model/Close.v).  Only these two record kinds; sorted() on any other list of records is untranslated.
+ATTRS_ORDER = {"deme": "deme_lt", "mig": "mig_lt"}
 ERRS = {"ValueError": "ValueErr", "NotImplementedError": "OtherErr", "KeyError": "KeyErr", "TypeError": "TypeErr",
         "IndexError": "IndexErr", "AssertionError": "AssertErr", "ZeroDivisionError": "ZeroDivErr", "OverflowError": "OverflowErr"}
 
@@ -773,6 +801,13 @@ METHOD_CALLS = {
         exact="forall self other rel_tol abs_tol, f_Epoch_assert_close self other rel_tol abs_tol = "
               "(if close_epoch rel_tol abs_tol self other then Ok tt else Err AssertErr)"),
 }
+for _k, _cls, _close in (("deme", "Deme", "close_deme"), ("mig", "AsymmetricMigration", "close_mig"), ("pulse", "Pulse", "close_pulse")):
+    METHOD_CALLS[("rec:" + _k, "assert_close")] = dict(
+        site=_cls + "_assert_close", file="demes/demes.py", qual=_cls + ".assert_close",
+        params={"self": "rec:" + _k, "other": "rec:" + _k, "rel_tol": N, "abs_tol": N},
+        term="(" + _close + " {rel_tol} {abs_tol} {self} {other})",
+        exact="forall self other rel_tol abs_tol, f_%s_assert_close self other rel_tol abs_tol = "
+              "(if %s rel_tol abs_tol self other then Ok tt else Err AssertErr)" % (_cls, _close))
 EXACT = {c["site"]: c["exact"] for c in METHOD_CALLS.values()}
 
 
@@ -976,6 +1011,204 @@ def wrap(binds, body):
         body = "(%s <- %s ;; %s)" % (v, t, body)
     return body
 
+# ---- update of a deep copy ------------------------------------------------------------------------------------------
+# `g = copy.deepcopy(x)` binds g to a fresh VALUE equal to x: nothing reachable from g is shared with x or with any other
+# name (TRUSTED: the record tree has no internal sharing the model does not have -- Graph._deme_map is positions in the
+# model -- and the classes define no __deepcopy__/__reduce__/__setattr__ hooks and no on_setattr validators, which
+# deepcopy_ok checks textually).  The copy is a "mutable" name: its current value is kept field by field
+# (env["<mut>"][name] = (kind, {projection: current term})), attribute assignments update that state, reads of its
+# scalar attributes see the value current at that statement, and the whole object or its record-valued attributes
+# cannot be read at all (no aliases can be made); they can only be iterated by an update loop and returned.
+def deepcopy_ok(path):
+    src = open(os.path.join(REPO, path)).read()
+    tree = ast.parse(src)
+    imported = any(isinstance(n, ast.Import) and any(a.name == "copy" and a.asname is None for a in n.names) for n in tree.body)
+    rebound = 0
+    for n in ast.walk(tree):
+        if isinstance(n, ast.Name) and n.id == "copy" and isinstance(n.ctx, (ast.Store, ast.Del)):
+            rebound += 1
+        if isinstance(n, (ast.FunctionDef, ast.ClassDef)) and n.name == "copy":
+            rebound += 1
+        if isinstance(n, ast.arg) and n.arg == "copy":
+            rebound += 1
+        if isinstance(n, (ast.Import, ast.ImportFrom)) and n not in tree.body and any((a.asname or a.name) == "copy" for a in n.names):
+            rebound += 1
+        if isinstance(n, ast.ImportFrom) and any((a.asname or a.name) == "copy" for a in n.names):
+            rebound += 1
+    hooks = ["on_setattr", "attr.define", "attrs.define", "attr.frozen", "__setattr__", "__deepcopy__", "__copy__", "__reduce",
+             "__getstate__", "__setstate__", "__getattr__", "__getattribute__"]
+    return imported and not rebound and not any(h in src for h in hooks)
+
+
+def attr_proj(kind, attr):
+    pat, ty = RECORDS[kind].get(attr, (None, None))
+    m = re.match(r"^\((\w+) %s\)$", pat or "")
+    if not m or m.group(1) not in CTORS[kind][1]:
+        raise Untranslatable("attribute %s of a %s cannot be assigned" % (attr, kind))
+    return m.group(1), ty
+
+
+def mut_value(kind, fields):
+    return "(%s %s)" % (CTORS[kind][0], " ".join(fields[p] for p in CTORS[kind][1]))
+
+
+def mut_refresh(env, pyname):
+    """the env entries of the readable attributes of a mutable name, from its current fields"""
+    kind, fields = env["<mut>"][pyname]
+    env.pop(pyname, None)           # the whole object cannot be read
+    for attr, (pat, ty) in RECORDS[kind].items():
+        env.pop(pyname + "." + attr, None)
+        if ty.startswith("list:") or ty.startswith("rec:"):
+            continue                # record-valued attributes cannot be read (only iterated by an update loop)
+        term = re.sub(r"\((\w+) %s\)", lambda m: fields.get(m.group(1), "%s"), pat)
+        if "%s" not in term:
+            env[pyname + "." + attr] = (term, ty)
+    return env
+
+
+def bind_mutable(env, pyname, coqterm, kind, only=False):
+    if pyname in env or any(k.startswith(pyname + ".") for k in env if isinstance(k, str)):
+        raise Untranslatable("name %s is already bound" % pyname)
+    env = dict(env)
+    muts = {} if only else dict(env.get("<mut>", {}))
+    muts[pyname] = (kind, {p: "(%s %s)" % (p, coqterm) for p in CTORS[kind][1]})
+    env["<mut>"] = muts
+    return mut_refresh(env, pyname)
+
+
+def set_attr(env, pyname, attr, term, ty):
+    kind, fields = env["<mut>"][pyname]
+    proj, fty = attr_proj(kind, attr)
+    if ty != fty:
+        raise Untranslatable("%s.%s assigned a value of type %s" % (pyname, attr, ty))
+    fields = dict(fields)
+    fields[proj] = term
+    env = dict(env)
+    env["<mut>"] = dict(env["<mut>"])
+    env["<mut>"][pyname] = (kind, fields)
+    return mut_refresh(env, pyname)
+
+
+def attr_store(s, env):
+    """(name, attr, value expression) if s is `m.attr = e` or `m.attr op= e` on a mutable name m, else None"""
+    muts = env.get("<mut>", {})
+    if isinstance(s, ast.Assign) and len(s.targets) == 1:
+        t, value = s.targets[0], s.value
+    elif isinstance(s, ast.AugAssign):
+        t = s.target
+        value = ast.BinOp(left=ast.Attribute(value=t.value, attr=t.attr, ctx=ast.Load()), op=s.op, right=s.value) \
+            if isinstance(t, ast.Attribute) else None
+    else:
+        return None
+    if isinstance(t, ast.Attribute) and isinstance(t.value, ast.Name):
+        if t.value.id not in muts:
+            raise Untranslatable("assignment to an attribute of %s, which is neither the loop variable nor the copy" % t.value.id)
+        return t.value.id, t.attr, ast.fix_missing_locations(ast.copy_location(value, s))
+    return None
+
+
+def update_loop(s, env):
+    """(mutable name, kind of the elements, projection) if s is `for x in m.coll:` over a record list of a mutable m"""
+    it = s.iter
+    if isinstance(it, ast.Attribute) and isinstance(it.value, ast.Name) and it.value.id in env.get("<mut>", {}):
+        kind, fields = env["<mut>"][it.value.id]
+        proj, ty = attr_proj(kind, it.attr)
+        if not ty.startswith("list:") or s.orelse or not isinstance(s.target, ast.Name):
+            raise Untranslatable("loop over %s" % ast.unparse(it))
+        return it.value.id, ty[5:], proj
+    return None
+
+
+def tr_update_loop(s, env, ctx, k):
+    """for x in m.coll: <updates of x, nested update loops over x.coll2>   with m a mutable name
+       ->   new <- mapM (fun z => <x rebuilt, the raising operations bound in statement order>) <m.coll> ;; k(env with m.coll := new)
+    Inside the body only x is mutable (an assignment to an attribute of m or of an outer loop variable is refused), m's
+    scalar attributes are read at their value at loop entry (they cannot change inside), and x does not escape: it is
+    bound in the body only."""
+    m, ekind, proj = update_loop(s, env)
+    kind, fields = env["<mut>"][m]
+    z = fresh_var(env, ctx)
+    benv = bind_mutable(env, s.target.id, z, ekind, only=True)
+    body = tr_update_body(list(s.body), benv, ctx, s.target.id)
+    new = fresh_var(env, ctx, "new")
+    env2 = set_attr(env, m, s.iter.attr, new, "list:" + ekind)
+    return "(%s <- mapM (fun %s => %s) %s ;; %s)" % (new, z, body, fields[proj], k(env2))
+
+
+def tr_update_body(stmts, env, ctx, var):
+    if not stmts:
+        return "Ok " + mut_value(*env["<mut>"][var])
+    s, rest = stmts[0], stmts[1:]
+    if isinstance(s, ast.Pass) or (isinstance(s, ast.Expr) and isinstance(s.value, ast.Constant) and isinstance(s.value.value, str)):
+        return tr_update_body(rest, env, ctx, var)
+    st = attr_store(s, env)
+    if st is not None:
+        binds, term, ty, env2 = lift(st[2], env, ctx["counter"])
+        return wrap(binds, tr_update_body(rest, set_attr(env2, st[0], st[1], term, ty), ctx, var))
+    if isinstance(s, ast.For) and update_loop(s, env) is not None:
+        return tr_update_loop(s, env, ctx, lambda env2: tr_update_body(rest, env2, ctx, var))
+    raise Untranslatable("statement in an update loop: " + ast.unparse(s)[:60])
+
+
+# ---- locally defined functions, inlined at their call sites -------------------------------------------------------------
+def inline_call(fn, call, env, ctx):
+    """the body of a locally defined function with its parameters bound to the (non-raising) arguments of the call; free
+    names are those of the enclosing function at the call"""
+    a = fn.args
+    if a.vararg or a.kwarg or a.posonlyargs or a.defaults or any(d is not None for d in a.kw_defaults) or fn.decorator_list:
+        raise Untranslatable("signature of local function " + fn.name)
+    if ctx.get("inline", 0) >= 2:
+        raise Untranslatable("nested inlining")
+    if any(isinstance(n, (ast.Nonlocal, ast.Global, ast.Yield, ast.YieldFrom, ast.Await)) for n in ast.walk(fn)):
+        raise Untranslatable("local function " + fn.name)
+    pos = [x.arg for x in a.args]
+    if len(call.args) > len(pos) or any(isinstance(x, ast.Starred) for x in call.args) or any(k.arg is None for k in call.keywords):
+        raise Untranslatable("call arguments of " + fn.name)
+    vals = {}
+    for name, x in list(zip(pos, call.args)) + [(k.arg, k.value) for k in call.keywords]:
+        if name in vals or name not in pos + [x.arg for x in a.kwonlyargs]:
+            raise Untranslatable("argument %s of %s" % (name, fn.name))
+        binds, term, ty, _ = lift(x, env, ctx["counter"])
+        if binds:
+            raise Untranslatable("raising operation in the arguments of a call")
+        vals[name] = (term, ty)
+    if set(vals) != set(pos + [x.arg for x in a.kwonlyargs]):
+        raise Untranslatable("missing argument of " + fn.name)
+    fenv = dict(env)
+    fenv["<mut>"] = {}                  # the body may not update the caller's copy
+    for name, (term, ty) in vals.items():
+        for k in [k for k in fenv if isinstance(k, str) and (k == name or k.startswith(name + "."))]:
+            del fenv[k]
+        if ty.startswith("rec:"):
+            fenv = bind_record(fenv, name, term, ty[4:])
+        else:
+            fenv[name] = (term, ty)
+    fctx = dict(ctx, types=set(), inline=ctx.get("inline", 0) + 1, inloop=0)
+    term = tr_block(list(fn.body), fenv, fctx)
+    if fctx["types"] - {"unit"}:
+        raise Untranslatable("local function with a value, called as a statement")
+    return term
+
+
+def handler_reraises(stmts, cls, env):
+    """every path through the handler ends in `raise cls(...)`; its tests are isinstance tests of names (cannot raise)"""
+    if not stmts:
+        return False
+    s = stmts[0]
+    if isinstance(s, ast.Raise):        # what follows a raise is dead
+        exc = s.exc.func if isinstance(s.exc, ast.Call) else s.exc
+        return isinstance(exc, ast.Name) and exc.id == cls and exc.id not in env
+    if isinstance(s, ast.If):
+        def plain(t):
+            if isinstance(t, ast.BoolOp):
+                return all(plain(v) for v in t.values)
+            if isinstance(t, ast.UnaryOp) and isinstance(t.op, ast.Not):
+                return plain(t.operand)
+            return (isinstance(t, ast.Call) and isinstance(t.func, ast.Name) and t.func.id == "isinstance" and "isinstance" not in env
+                    and len(t.args) == 2 and not t.keywords and all(isinstance(x, ast.Name) for x in t.args))
+        return plain(s.test) and handler_reraises(list(s.body) + stmts[1:], cls, env) and handler_reraises(list(s.orelse) + stmts[1:], cls, env)
+    return False
+
 
 def tr_block(stmts, env, ctx):
     """statements -> Gallina term of type res <ctx['ret']>; falling off the end returns None (unit)"""
@@ -993,6 +1226,10 @@ def tr_block(stmts, env, ctx):
         if s.value is None:
             ctx["types"].add("unit")
             return "Ok tt"
+        if isinstance(s.value, ast.Name) and s.value.id in env.get("<mut>", {}):
+            kind, fields = env["<mut>"][s.value.id]         # return <the copy>: its value current at this statement
+            ctx["types"].add("rec:" + kind)
+            return "Ok " + mut_value(kind, fields)
         binds, term, ty, _ = lift(s.value, env, ctx["counter"])
         ctx["types"].add(ty)
         return wrap(binds, "Ok %s" % term)
@@ -1002,9 +1239,42 @@ def tr_block(stmts, env, ctx):
         if name not in ERRS:
             raise Untranslatable("raise " + name)
         return "Err %s" % ERRS[name]
+    if isinstance(s, ast.FunctionDef):
+        # a locally defined function: inlined at its calls (inline_call); the name cannot be rebound afterwards
+        if ctx.get("inloop") or s.name in env or any(isinstance(k, str) and k.startswith(s.name + ".") for k in env):
+            raise Untranslatable("local function " + s.name)
+        env2 = dict(env)
+        env2[s.name] = (s, "localfun")
+        return tr_block(rest, env2, ctx)
+    if (isinstance(s, ast.Expr) and isinstance(s.value, ast.Call) and isinstance(s.value.func, ast.Name)
+            and env.get(s.value.func.id, (None, None))[1] == "localfun"):
+        return "(%s ;;; %s)" % (inline_call(env[s.value.func.id][0], s.value, env, ctx), tr_block(rest, env, ctx))
+    if (isinstance(s, ast.Assign) and len(s.targets) == 1 and isinstance(s.targets[0], ast.Name) and isinstance(s.value, ast.Call)
+            and ast.unparse(s.value.func) == "copy.deepcopy"):
+        # g = copy.deepcopy(x), x a record that is not itself a copy being updated
+        c = s.value
+        if (ctx.get("inloop") or ctx.get("inline") or "copy" in env or len(c.args) != 1 or c.keywords or not isinstance(c.args[0], ast.Name)
+                or c.args[0].id in env.get("<mut>", {}) or not deepcopy_ok(ctx.get("file", ""))):
+            raise Untranslatable("deepcopy")
+        term, ty = tr(c.args[0], env)
+        if not ty.startswith("rec:") or ty[4:] not in CTORS:
+            raise Untranslatable("deepcopy of " + ty)
+        return tr_block(rest, bind_mutable(env, s.targets[0].id, term, ty[4:]), ctx)
+    st = attr_store(s, env) if isinstance(s, (ast.Assign, ast.AugAssign)) else None
+    if st is not None:
+        if ctx.get("inloop"):
+            raise Untranslatable("assignment inside a loop body")
+        binds, term, ty, env2 = lift(st[2], env, ctx["counter"])
+        return wrap(binds, tr_block(rest, set_attr(env2, st[0], st[1], term, ty), ctx))
+    if isinstance(s, ast.For) and update_loop(s, env) is not None:
+        if ctx.get("inloop"):
+            raise Untranslatable("update loop inside a loop body")
+        return tr_update_loop(s, env, ctx, lambda env2: tr_block(rest, env2, ctx))
     if isinstance(s, ast.Assign) and len(s.targets) == 1 and isinstance(s.targets[0], ast.Name):
         if ctx.get("inloop"):
             raise Untranslatable("assignment inside a loop body")
+        if s.targets[0].id in env.get("<mut>", {}) or env.get(s.targets[0].id, (None, None))[1] == "localfun":
+            raise Untranslatable("rebinding of " + s.targets[0].id)
         binds, term, ty, env2 = lift(s.value, env, ctx["counter"])
         env2 = dict(env2)
         if ty.startswith("rec:"):
@@ -1037,11 +1307,10 @@ def tr_block(stmts, env, ctx):
                     % (v, cterm, term, tr_block(list(s.orelse), env1, ctx), v, tr_block(rest, env2, ctx)))
     if (isinstance(s, ast.Try) and len(s.handlers) == 1 and not s.orelse and not s.finalbody
             and isinstance(s.handlers[0].type, ast.Name) and s.handlers[0].type.id in ERRS
-            and len(s.handlers[0].body) == 1 and isinstance(s.handlers[0].body[0], ast.Raise)):
-        # try: S  except E [as e]: raise E(...) [from e]   re-raises the same class: it is S (errors are classes here)
-        r = s.handlers[0].body[0]
-        exc = r.exc.func if isinstance(r.exc, ast.Call) else r.exc
-        if isinstance(exc, ast.Name) and exc.id == s.handlers[0].type.id and exc.id not in env:
+            ):
+        # try: S  except E [as e]: raise E(...) [from e]   re-raises the same class on every path through the handler
+        # (which may branch on isinstance tests of names): it is S (errors are classes here)
+        if handler_reraises(list(s.handlers[0].body), s.handlers[0].type.id, env):
             return tr_block(list(s.body) + rest, env, ctx)
         raise Untranslatable("try statement with a handler that changes the exception")
     if isinstance(s, ast.Expr) and isinstance(s.value, ast.Call) and isinstance(s.value.func, ast.Attribute):
@@ -1174,6 +1443,14 @@ FUN_SITES = [
      "forall self, f_Epoch_post_init self = epoch_post_init self", "epoch_post_init raise_if", ["C01", "C03"]),
     ("AsymmetricMigration_post_init", "demes/demes.py", "AsymmetricMigration.__attrs_post_init__", [("self", "rec:mig")], "(self : mig)",
      "unit", "forall self, f_AsymmetricMigration_post_init self = mig_post_init self", "mig_post_init raise_if", ["C01", "C03"]),
+    ("Graph_assert_close", "demes/demes.py", "Graph.assert_close",
+     [("self", "rec:graph"), ("other", "rec:graph"), ("rel_tol", N), ("abs_tol", N)],
+     "(self other : graph) (rel_tol abs_tol : num)", "unit",
+     "forall self other rel_tol abs_tol, is_ok (f_Graph_assert_close self other rel_tol abs_tol) = close_graph rel_tol abs_tol self other",
+     "close_graph is_ok", ["C10"]),
+    ("Graph_in_generations", "demes/demes.py", "Graph.in_generations", [("self", "rec:graph")], "(self : graph)", "graph",
+     "forall self, f_Graph_in_generations self = in_generations self",
+     "in_generations deme_ingen epoch_ingen mig_ingen pulse_ingen", ["C11"]),
 ]
 
 
@@ -1202,10 +1479,10 @@ def generate_funs():
             if missing:
                 status = "untranslatable: parameter(s) %s have no model counterpart" % missing
             else:
-                ctx = dict(types=set(), counter=[0])
+                ctx = dict(types=set(), counter=[0], file=path)
                 try:
                     term = tr_block(list(fn.body), env, ctx)
-                    tys = set("num" if t == "num" else t for t in ctx["types"])
+                    tys = set(t[4:] if t.startswith("rec:") else t for t in ctx["types"])
                     if tys != {rty}:
                         status = "untranslatable: returns %s, the model returns %s" % (sorted(tys), rty)
                 except Untranslatable as e:
@@ -1222,7 +1499,7 @@ def generate_funs():
 FUN_HEADER = """(* GENERATED by xlate/pyxlate.py from the current source of /repo on every run. Do not edit.
    Whole function bodies of the implementation, translated statement by statement. *)
 From Coq Require Import Bool List String Arith.
-From Demes Require Import Base.Num Base.Py Model.MDM Model.Resolve Model.SizeAt Model.ToMs Model.Close Proofs.ArithSites Proofs.FunSites.
+From Demes Require Import Base.Num Base.Py Model.MDM Model.Resolve Model.SizeAt Model.ToMs Model.Close Model.InGen Proofs.ArithSites Proofs.FunSites.
 Import ListNotations.
 Local Open Scope string_scope.
 Local Open Scope list_scope.
@@ -1282,7 +1559,11 @@ Ltac ftie_step :=
   | |- context [forall2b ?f ?a ?b] => let x := fresh in destruct (forall2b f a b) eqn:x
   | |- context [forM_ ?f ?l] => let x := fresh in destruct (forM_ f l) eqn:x
   | |- context [forM2_ ?f ?a ?b] => let x := fresh in destruct (forM2_ f a b) eqn:x
-  end; cbn [bind phead is_ok negb andb orb].
+  (* divisions inside the body of a mapM (update loops), bound in another order than the model's: case on the divisor
+     (closed, so the case split reaches under the binders), and when it is zero on the lists the failing loops run over *)
+  | |- context [mapM (fun _ => Err ?e) ?l] => let x := fresh in destruct l eqn:x
+  | |- context [mapM ?f ?l] => progress unfold pdiv
+  end; cbn [bind phead is_ok negb andb orb mapM].
 (* reflexivity is tried before every case split, so the number of cases is that of the paths through the body *)
 Ltac ftie_go ::= first [ reflexivity | ftie_step; ftie_go ].
 Ltac ftie := intros; first [ reflexivity
@@ -1487,6 +1768,8 @@ def cmd_gen(outdir, coqdir="/verif/coq"):
         whole = {(x["file"], x["function"]): x["site"] for x in report if x["site"].startswith("f_") and x["status"] == "ok"}
         for x in report:
             k = (x["file"], x["function"])
+            if k not in whole:      # a function nested in a wholly tied one is part of that body (inlined at its calls)
+                k = next((w for w in whole if w[0] == k[0] and (k[1] or "").startswith(w[1] + ".")), k)
             if k in whole and x["status"] != "ok" and not x["site"].startswith("f_"):
                 x["subsumed"] = x["status"]
                 x["status"] = "ok"
